@@ -17,6 +17,8 @@ pub enum Op {
     SrtAck(i64, u64),
     SrtlaAck(usize, i64, bool, u64),
     Nak(i64, u64),
+    /// one NAK datagram listing the consecutive numbers s, s+1, .., s+k-1 (what a range entry expands to)
+    NakRun(i64, u32, u64),
     Recovery(usize, u64, bool),
     CcAck(usize, bool, i64),
     CcNak(usize, u64),
@@ -36,6 +38,7 @@ pub fn op_lit(o: &Op) -> String {
         Op::SrtAck(a, t) => format!("OSrtAck {} {}", z(*a as i128), t),
         Op::SrtlaAck(i, s, c, t) => format!("OSrtlaAck {} {} {} {}", i, z(*s as i128), boolc(*c), t),
         Op::Nak(s, t) => format!("ONak {} {}", z(*s as i128), t),
+        Op::NakRun(s, _, t) => format!("ONak {} {}", z(*s as i128), t),   // expanded per element by run_case
         Op::Recovery(i, t, v) => format!("ORecovery {} {} {}", i, t, boolc(*v)),
         Op::CcAck(i, c, inf) => format!("OCcAck {} {} {}", i, boolc(*c), z(*inf as i128)),
         Op::CcNak(i, t) => format!("OCcNak {} {}", i, t),
@@ -52,7 +55,7 @@ pub fn op_lit(o: &Op) -> String {
 pub fn op_kind(o: &Op) -> &'static str {
     match o {
         Op::Register(..) => "register", Op::Track(..) => "track", Op::SrtAck(..) => "srt_ack",
-        Op::SrtlaAck(..) => "srtla_ack", Op::Nak(..) => "nak", Op::Recovery(..) => "recovery",
+        Op::SrtlaAck(..) => "srtla_ack", Op::Nak(..) => "nak", Op::NakRun(..) => "nak_run", Op::Recovery(..) => "recovery",
         Op::CcAck(..) => "cc_ack", Op::CcNak(..) => "cc_nak", Op::Global(..) => "global",
         Op::MarkRecovery(..) => "mark_recovery", Op::ResetReconnect(..) => "reset_reconnect",
         Op::Reg3(..) => "reg3", Op::SetConn(..) => "set_conn", Op::SetWindow(..) => "set_window",
@@ -104,6 +107,11 @@ impl World {
             Op::Nak(s, now) => {
                 let mut inc = SrtlaIncoming { read_any: true, ..Default::default() };
                 inc.nak_numbers.push(s as u32);
+                self.events(0, false, now, inc);
+            }
+            Op::NakRun(s, k, now) => {
+                let mut inc = SrtlaIncoming { read_any: true, ..Default::default() };
+                for j in 0..k as i64 { inc.nak_numbers.push((s + j) as u32); }
                 self.events(0, false, now, inc);
             }
             Op::Recovery(i, now, vel_hi) => {
@@ -213,7 +221,27 @@ pub fn run_case(n: usize, ops: &[Op]) -> (String, bool) {
     let init = w.obs();
     let mut steps = Vec::with_capacity(ops.len());
     let mut panicked = false;
-    for o in ops {
+    for (pos, o) in ops.iter().enumerate() {
+        if let Op::NakRun(s, k, now) = *o {
+            // A multi-entry NAK list is ONE call of the real event fan-out.  The observation after
+            // its first j entries is taken from a second execution of the same history whose list is
+            // cut after j entries (the loop over the list is sequential, so that is the state the
+            // full call passes through); the last observation is the full call on the main world.
+            for j in 1..k {
+                let mut w2 = World::new(n);
+                let r = std::panic::catch_unwind(std::panic::AssertUnwindSafe(|| {
+                    for p in &ops[..pos] { w2.apply(p); }
+                    w2.apply(&Op::NakRun(s, j, now));
+                }));
+                if r.is_err() { panicked = true; break; }
+                steps.push(format!("({},{})", op_lit(&Op::Nak(s + j as i64 - 1, now)), w2.obs()));
+            }
+            if panicked { steps.push(format!("({},[])", op_lit(o))); break; }
+            let r = std::panic::catch_unwind(std::panic::AssertUnwindSafe(|| w.apply(o)));
+            if r.is_err() { panicked = true; steps.push(format!("({},[])", op_lit(o))); break; }
+            steps.push(format!("({},{})", op_lit(&Op::Nak(s + k as i64 - 1, now)), w.obs()));
+            continue;
+        }
         let r = std::panic::catch_unwind(std::panic::AssertUnwindSafe(|| w.apply(o)));
         if r.is_err() {
             panicked = true;
@@ -290,6 +318,15 @@ pub fn gen_ops(rng: &mut Rng, profile: Profile, n: usize, len: usize) -> Vec<Op>
             if g.rng.chance(2, 3) {
                 let w = *g.rng.pick(&[1000i64, 1001, 1099, 1100, 1971, 2000, 2001, 2100, 5000, 11_970, 11_971, 11_999, 12_000,
                                       20_000, 59_970, 59_971, 59_999, 60_000]);
+                ops.push(Op::SetWindow(i, w));
+            }
+        }
+    }
+    if profile == Profile::C05 && g.rng.chance(1, 3) {
+        // windows just above the floor: the NAK decrement must clamp (1001..1099 -> 1000)
+        for i in 0..n {
+            if g.rng.chance(2, 3) {
+                let w = *g.rng.pick(&[1000i64, 1001, 1050, 1099, 1100, 1101, 1199, 1200]);
                 ops.push(Op::SetWindow(i, w));
             }
         }
@@ -397,10 +434,27 @@ pub fn gen_ops(rng: &mut Rng, profile: Profile, n: usize, len: usize) -> Vec<Op>
                     if s >= 0 && s < (1i64 << 31) {
                         ops.push(Op::Nak(s, t));
                         if g.rng.chance(1, 3) { ops.push(Op::Nak(s, t + g.rng.below(3))); }
-                        if g.rng.chance(1, 6) {
-                            // NAK range
-                            for k in 1..g.rng.range(2, 6) { ops.push(Op::Nak(s + k, t)); }
+                        if g.rng.chance(1, 6) && s + 8 < (1i64 << 31) {
+                            // NAK range: the following numbers arrive in ONE list
+                            let k = g.rng.range(2, 6) as u32;
+                            ops.push(Op::NakRun(s + 1, k, t));
                         }
+                    }
+                }
+                else if r < 78 && g.n >= 2 {
+                    // a burst sent on link l; one number of it retransmitted and re-routed to link m
+                    // (l keeps its copy, the tracker now names m); then the whole run is NAKed in one list
+                    let l = g.link(); let mut m = g.link(); if m == l { m = (l + 1) % g.n; }
+                    let k = g.rng.range(2, 5);
+                    let t = g.tick(false);
+                    let s0 = g.next_seq; g.next_seq += k;
+                    if s0 + k < (1i64 << 31) {
+                        for j in 0..k { ops.push(Op::Track(l, s0 + j, t)); ops.push(Op::Register(l, s0 + j, t)); g.sent[l].push(s0 + j); }
+                        let rr = s0 + g.rng.range(0, k - 1);
+                        let t2 = g.tick(false);
+                        ops.push(Op::Track(m, rr, t2)); ops.push(Op::Register(m, rr, t2)); g.sent[m].push(rr);
+                        let t3 = g.tick(false);
+                        ops.push(Op::NakRun(s0, k as u32, t3));
                     }
                 }
                 else if r < 82 { let i = g.link(); ops.push(Op::RemoveConn(i)); }
